@@ -75,6 +75,14 @@ def gen_plans(seed, tier):
                  ("P", "s:%s,r,c,e" % hx(p1), [r200, "EOF"], {"kinds": ["p"]}),
                  ("S", "e", ["EOF"], {"kinds": []})]
         plans.append((1, conns, False))
+    # StopAccepting while proceeded connections are still in progress or still QUEUED behind a busy worker (pool mode, one and two
+    # workers): accepting ends, but every connection that was handed to request handling is still served and torn down exactly once
+    # (the pool's shutdown finishes every submitted job).  Not run in epoll mode (known finding K16: open connections are abandoned).
+    for threads, nq in ((1, 1), (1, 2), (2, 1)):
+        conns = [("P", "s:%s,|,r,c,e" % hx(slow), ["R200:0:" + hx(b"slow"), "EOF"], {"kinds": ["p"]}) for _ in range(threads)]
+        conns += [("P", "s:%s,|,r,c,e" % hx(p1), [r200, "EOF"], {"kinds": ["p"]}) for _ in range(nq)]
+        conns.append(("S", "e", ["EOF"], {"kinds": []}))
+        plans.append((threads, conns, "late"))
     return plans
 
 
@@ -135,7 +143,8 @@ def run(pid):
         for threads, conns, slowtd in plans:
             plan = "/".join("%s:%s" % (d, sc) for d, sc, _, _ in conns)
             for m in MODES:
-                lines.append("SERVE mode=%s threads=%d%s plan=%s" % (m, threads, " slowtd=1" if slowtd else "", plan))
+                # (a `late` plan in epoll mode would be the known finding K16: run it in serve mode instead, keeping groups of three)
+                lines.append("SERVE mode=%s threads=%d%s plan=%s" % ("serve" if (slowtd == "late" and m == "epoll") else m, threads, " late=1" if slowtd == "late" else " slowtd=1" if slowtd else "", plan))
                 meta.append((m, conns))
         impl = C.run_sharded(ctx["kimpl"], lines, shards=min(C.NCPU, 12))
         for i in range(0, len(lines), 3):
